@@ -302,9 +302,12 @@ class GenSpec:
         from pycparser.c_generator import CGenerator
 
         pristine.touch("CParser.parse (inputs of the generator)")
-        self.name = "CGenerator"
-        self.rp = bool(reduce_parentheses)
-        self._G = CGenerator
+        # reduce_parentheses: 0 / 1 for a plain CGenerator, or the name of a
+        # generator subclass of the instance alphabet (mc/obs.py)
+        self.sub = reduce_parentheses if isinstance(reduce_parentheses, str) else ""
+        self.name = "CGenerator" if not self.sub else f"CGenerator-subclass({self.sub})"
+        self.rp = bool(reduce_parentheses) and not self.sub
+        self._G = CGenerator if not self.sub else O.generator_class(self.sub)
         roots = {k: CParser().parse(v, k + ".c") for k, v in GEN_SOURCES.items()}
         self.ops, self.nodes = [], []
         for what, src, path in GEN_ASTS:
@@ -314,7 +317,7 @@ class GenSpec:
             self.nodes.append(node)
 
     def fresh(self):
-        return self._G(reduce_parentheses=self.rp)
+        return self._G() if self.sub else self._G(reduce_parentheses=self.rp)
 
     def apply(self, obj, i):
         pristine.touch("CGenerator.visit")
@@ -418,7 +421,8 @@ def _left_behind_work(i):
 
 PREF = ("checks.c12", "parser_spec", ("real",))
 CREF = ("checks.c12", "parser_spec", ("control",))
-GREF = {rp: ("checks.c12", "gen_spec", (rp,)) for rp in (0, 1)}
+GREF = {rp: ("checks.c12", "gen_spec", (rp,)) for rp in (0, 1, "deco", "ownvisit")}
+GVARIANTS = (0, 1, "deco", "ownvisit")
 FREF = {rp: ("checks.c12", "gen_fresh_spec", (rp,)) for rp in (0, 1)}
 DREF = ("checks.c12", "parser_spec", ("drop",))
 
@@ -442,6 +446,7 @@ def run(tier):
     unstable = []
     for ref, n in [(PREF, NP), (CREF, len(parser_ops("control"))),
                    (GREF[0], len(GEN_ASTS)), (GREF[1], len(GEN_ASTS)),
+                   (GREF["deco"], len(GEN_ASTS)), (GREF["ownvisit"], len(GEN_ASTS)),
                    (FREF[0], len(FRESH_TEXTS)), (FREF[1], len(FRESH_TEXTS))]:
         base[ref], u = hist.baseline(ref, n)
         unstable += [(ref, i, a, b) for i, a, b in u]
@@ -547,8 +552,13 @@ def run(tier):
     gen_hist = 0
     gen_states = set()
     ng = len(GEN_ASTS)
-    for rp in (0, 1):
-        g = hist.explore(GREF[rp], gdepth, base[GREF[rp]], plen=2)
+    # instances of four classes (plain with either setting, a subclass
+    # overriding visit_X methods, a subclass overriding visit()); the workers
+    # run all of them, so class-level state shared between generator classes
+    # shows as a difference from the pristine baseline of the class
+    for rp in GVARIANTS:
+        g = hist.explore(GREF[rp], gdepth, base[GREF[rp]], plen=2,
+                         others=[(GREF[o], base[GREF[o]]) for o in GVARIANTS if o != rp])
         R.fail_many(g["fails"])
         gen_hist += g["histories"]
         transitions += g["applied"]
@@ -591,7 +601,7 @@ def run(tier):
     R.set("traces_validated_against_impl", traces)
     R.set("evaluations", traces + ctl["histories"])
     # non-trivial = histories of length >= 2 (the compared call really ran on a used object)
-    nontriv = (r["histories"] - NP) + (drop_hist - NP) + lex_hist + (gen_hist - 2 * ng) + (fresh_hist - 2 * nf)
+    nontriv = (r["histories"] - NP) + (drop_hist - NP) + lex_hist + (gen_hist - len(GVARIANTS) * ng) + (fresh_hist - 2 * nf)
     R.set("distinct_nontrivial", nontriv)
     R.set("distinct_outcomes", r["expected_distinct"])
     R.set("bounds", {"parser_sequences<=": depth, "parser_ops": NP,
@@ -599,7 +609,7 @@ def run(tier):
                      "parser_sequences_with_dropped_asts<=": ddepth,
                      "generator_sequences<=": gdepth, "generator_asts": ng,
                      "generator_fresh_ast_texts": nf,
-                     "generator_variants": ["reduce_parentheses=False", "reduce_parentheses=True"]})
+                     "generator_variants": ["reduce_parentheses=False", "reduce_parentheses=True", "subclass overriding visit_ID/visit_Constant/visit_BinaryOp", "subclass overriding visit()"]})
     R.assumptions += [
         f"histories consist of the listed operations only ({len(PROGRAMS)} programs x {len(FILENAMES)} file names; {nt} lexer texts; {ng} ASTs)",
         "generator histories contain successful visits only, as the property states",
@@ -686,7 +696,8 @@ def _replay(rep):
         return 1
     ref = (c["spec"][0], c["spec"][1], tuple(c["spec"][2]))
     h = tuple(c["history"])
-    pre = tuple(c.get("prelude", ()))
+    pre_all = list(c.get("prelude", ()))
+    pre = tuple(k for k in pre_all if isinstance(k, int))
     table, unstable = hist.baseline(ref, None, only=set(h) | set(pre))
     if c.get("long"):
         # address reuse depends on the allocation sequence: re-run the long
@@ -702,9 +713,16 @@ def _replay(rep):
         for i, a, b in unstable:
             print(f"operation {spec.ops[i]}: two pristine processes disagree: {O.obs_detail(a, b)}")
         return 1 if unstable else 0
-    for k in pre:
-        print(f"first, on ANOTHER fresh instance: {spec.ops[k]}")
-        spec.apply(spec.fresh(), k)
+    for k in pre_all:
+        if isinstance(k, int):
+            print(f"first, on ANOTHER fresh instance: {spec.ops[k]}")
+            spec.apply(spec.fresh(), k)
+        else:
+            r2 = (k[0][0], k[0][1], tuple(k[0][2]))
+            t2, _ = hist.baseline(r2, None, only=[k[1]])
+            s2 = hist.install_baseline(r2, t2)
+            print(f"first, on a fresh instance of ANOTHER class ({s2.name}): {s2.ops[k[1]]}")
+            s2.apply(s2.fresh(), k[1])
     obj, obs, keep, viol = hist.build(spec, h)
     for n, i in enumerate(h):
         e = hist.expected(spec, i)
